@@ -424,8 +424,9 @@ namespace ValueFlow
                 && tok->valueType()->getSizeOf(settings, ValueType::Accuracy::ExactOrZero, ValueType::SizeOf::Pointer)
                 >= valueType.getSizeOf(settings, ValueType::Accuracy::ExactOrZero, ValueType::SizeOf::Pointer))
                 return;
-            // an impossible value of the operand is a fact about the result only if the conversion preserves every value
-            if (value.isImpossible() && value.isIntValue() && valueType.isIntegral() && valueType.pointer == 0 &&
+            // an impossible value of the operand, or its equality with another expression, is a fact about the result
+            // only if the conversion preserves every value
+            if (((value.isImpossible() && value.isIntValue()) || value.isSymbolicValue()) && valueType.isIntegral() && valueType.pointer == 0 &&
                 tok->valueType() && tok->valueType()->isIntegral() && tok->valueType()->pointer == 0) {
                 const bool nonNegative = std::any_of(tok->values().cbegin(), tok->values().cend(), [](const Value& v) {
                     return v.isIntValue() && v.isImpossible() && v.bound == Value::Bound::Upper && v.intvalue >= -1;
